@@ -1,6 +1,6 @@
 (* C07 — Display/ToString is canonical and round-trips through the parser. *)
 From FP Require Import Machine SrcConsts Pow10 Parser Format Out ArithSpec StringSpec Run RunMore.
-From FP Require Import MachineFacts FormatFacts.
+From FP Require Import MachineFacts FormatFacts SwarFacts ParserFacts ParserMore.
 
 (* String::from(d), the text inside Debug's Dec!(..) (same body) and Display without
    flags are the canonical string: optional '-', integer part, and iff f > 0 a '.'
@@ -38,11 +38,29 @@ Proof. exact tostring_acc. Qed.
 Check C07_accepted : forall pf d, wf d = true -> acc_tostring d (run_tostring pf d) = true.
 Print Assumptions C07_accepted.
 
-(* the round trip through the parser: the full statement (proved in C07_roundtrip when
-   the parser theorems of C06 are available; until then checked on the implementation
-   and on the model by the correspondence run, operation str.roundtrip) *)
-Definition C07_roundtrip_statement : Prop :=
+(* the round trip through the parser, for every well-formed Decimal and every profile:
+   parse (to_string d) = d, coefficient and number of fractional digits included *)
+Theorem C07_roundtrip :
   forall pf d, wf d = true -> from_str pf (canon d) = Val (POk d).
+Proof. exact roundtrip. Qed.
+Check C07_roundtrip :
+  forall pf d, wf d = true -> from_str pf (canon d) = Val (POk d).
+Print Assumptions C07_roundtrip.
+
+Theorem C07_roundtrip_accepted :
+  forall pf d, wf d = true -> acc_roundtrip d (run_roundtrip pf d) = true.
+Proof. exact roundtrip_acc. Qed.
+Check C07_roundtrip_accepted :
+  forall pf d, wf d = true -> acc_roundtrip d (run_roundtrip pf d) = true.
+Print Assumptions C07_roundtrip_accepted.
+
+(* the canonical string is in the literal grammar and denotes d *)
+Theorem C07_canon_denotes :
+  forall d, wf d = true -> parse_spec (canon d) = PSOk d /\ known_str (canon d) = 0.
+Proof. exact parse_spec_canon. Qed.
+Check C07_canon_denotes :
+  forall d, wf d = true -> parse_spec (canon d) = PSOk d /\ known_str (canon d) = 0.
+Print Assumptions C07_canon_denotes.
 
 Example C07_nonvacuous :
   string_from dev (mkdec (-5) 1) = Val [45; 48; 46; 53] /\
